@@ -10,6 +10,10 @@ from vlib import gen
 from vlib.ref import spectrum as rs
 from vlib.runner import Skip, Violation, hyp, lentil_call
 
+# the check's own calls are issued with keywords or positionally in the documented order (vlib/callforms.py)
+from vlib import callforms as _cf
+lentil = _cf.proxy(lentil)
+
 RULE = ("pairs of spectra in every range relation (identical, nested, partially overlapping, disjoint), uniform "
         "and non-uniform grids, five operators, sampling min/left/right/float, linear/quadratic/cubic "
         "interpolation, scalar and two-sided fill values, all four wavelength units (same and mixed), scalar and "
